@@ -477,10 +477,79 @@ def _simplify(e: ast.expr) -> ast.expr:
 # --------------------------------------------------------------------------- driver
 
 
+def normalise_calls(repo) -> int:
+    """(1) arguments given by keyword for the *required* parameters of a function of this package become positional
+    (`space_unique_key(space=s, network=n)` -> `space_unique_key(s, n)`); optional parameters keep their keywords.
+    (2) `f(**{"a": x, "b": y})` -> `f(a=x, b=y)`."""
+    n = 0
+    for f in list(repo.functions.values()):
+        # locals that are assigned one dict display and never touched otherwise
+        disp: dict[str, ast.Dict] = {}
+        bad: set[str] = set()
+        for x in _own_walk(f.node):
+            if isinstance(x, ast.Assign) and len(x.targets) == 1 and isinstance(x.targets[0], ast.Name) and isinstance(x.value, ast.Dict):
+                (bad if x.targets[0].id in disp else disp).__setitem__(x.targets[0].id, x.value) if isinstance(disp, dict) and x.targets[0].id not in disp \
+                    else bad.add(x.targets[0].id)
+            elif isinstance(x, ast.Name) and isinstance(x.ctx, (ast.Store, ast.Del)):
+                pass
+        stores = {}
+        for x in _own_walk(f.node):
+            if isinstance(x, ast.Name) and isinstance(x.ctx, (ast.Store, ast.Del)):
+                stores[x.id] = stores.get(x.id, 0) + 1
+            if isinstance(x, ast.Subscript) and isinstance(x.ctx, (ast.Store, ast.Del)) and isinstance(x.value, ast.Name):
+                bad.add(x.value.id)
+            if isinstance(x, ast.Call) and isinstance(x.func, ast.Attribute) and isinstance(x.func.value, ast.Name) \
+                    and x.func.attr in ("update", "pop", "setdefault", "clear", "popitem"):
+                bad.add(x.func.value.id)
+        disp = {k: v for k, v in disp.items() if k not in bad and stores.get(k, 0) == 1}
+        for c in _own_walk(f.node):
+            if not isinstance(c, ast.Call):
+                continue
+            for k in c.keywords:
+                if k.arg is None and isinstance(k.value, ast.Name) and k.value.id in disp:
+                    k.value = copy.deepcopy(disp[k.value.id])
+            new_kw = []
+            for k in c.keywords:
+                if k.arg is None and isinstance(k.value, ast.Dict) and k.value.keys and all(
+                        isinstance(x, ast.Constant) and isinstance(x.value, str) and x.value.isidentifier() for x in k.value.keys):
+                    new_kw += [ast.keyword(x.value, v) for x, v in zip(k.value.keys, k.value.values)]
+                    n += 1
+                else:
+                    new_kw.append(k)
+            c.keywords = new_kw
+            if not c.keywords or any(k.arg is None for k in c.keywords) or any(isinstance(a, ast.Starred) for a in c.args):
+                continue
+            tgt = repo.resolve_call(f, c)
+            if not tgt or tgt.startswith("ext:") or tgt not in repo.functions:
+                continue
+            g = repo.functions[tgt]
+            a = g.node.args
+            params = [x.arg for x in a.posonlyargs + a.args]
+            required = len(params) - len(a.defaults)
+            static = any(isinstance(d, ast.Name) and d.id == "staticmethod" for d in g.node.decorator_list)
+            if g.cls is not None and not static and params[:1] == ["self"] and isinstance(c.func, ast.Attribute) \
+                    and not (isinstance(c.func.value, ast.Name) and c.func.value.id == g.cls):
+                params, required = params[1:], required - 1
+            elif tgt.endswith(".__init__") and params[:1] == ["self"]:
+                params, required = params[1:], required - 1
+            kw = {k.arg: k for k in c.keywords}
+            moved = False
+            while len(c.args) < required and len(c.args) < len(params) and params[len(c.args)] in kw:
+                k = kw.pop(params[len(c.args)])
+                c.args.append(k.value)
+                c.keywords.remove(k)
+                moved = True
+            n += moved
+    if n:
+        repo.__dict__.pop("_rc_memo", None)
+    return n
+
+
 def apply(repo) -> dict:
     """Mutates the module trees of `repo`; returns a report {inlined: [...], opaque: [...], removed: [...]}."""
     known = known_functions()
     report = {"inlined": [], "opaque": [], "removed": [], "new": []}
+    normalise_calls(repo)
     for rnd in range(6):
         new = {k: f for k, f in repo.functions.items() if k not in known}
         report["new"] = sorted(new)
@@ -497,6 +566,7 @@ def apply(repo) -> dict:
         if not changed:
             break
         repo.reindex()
+    normalise_calls(repo)
     # remove new functions without remaining references
     new = {k: f for k, f in repo.functions.items() if k not in known}
     if new:
